@@ -1176,6 +1176,16 @@ impl Sess {
         }
     }
 
+    /// Current value of cell c as stored in the database (top-level read).
+    pub fn read_cell(&self, c: u8) -> u8 {
+        self.db.cx().tabs().cells[c as usize].v(&self.db)
+    }
+
+    /// Current code of node n as stored in the database (top-level read).
+    pub fn read_code(&self, n: u8) -> Ex {
+        self.db.cx().tabs().nodes[n as usize].ex(&self.db).clone()
+    }
+
     /// Ids of the structs currently returned by mk-node n (top-level request).
     pub fn struct_ids(&self, n: u8) -> Vec<(u8, u64)> {
         let code = self.db.cx().tabs().nodes[n as usize];
